@@ -39,7 +39,10 @@ UNSUP_SHAPES = ['vector', 'ruler', 'compass', 'projection', 'panda', 'epanda',
                 'bpanda']
 COLORS = ['green', 'red', 'blue', 'cyan', 'magenta', 'yellow', 'white',
           '#ff00aa', '#0F0']
-TEXT_ALPHABET = 'abcXYZ 019;#=,.:+-_()/\'"'
+# (the last characters: outside ASCII, and characters that str.splitlines()
+# - but not DS9 - takes for line ends)
+TEXT_ALPHABET = ('abcXYZ 019;#=,.:+-_()/\'"' + '\u2605\u00e9'
+                 + '\u2028\x0b\x0c\x85\u2029\x1c')
 
 
 def dec(lo, hi, nd, allow_exp=True):
@@ -231,7 +234,8 @@ def ds9_file(draw, max_stmts):
         elif kind == 'comment':
             stmts.append({'k': 'comment', 'text': draw(st.sampled_from(
                 ['just a comment', 'circle(1,2,3)', 'a; b; fk5',
-                 'global color=red', 'Filename: x.fits']))})
+                 'global color=red', 'Filename: x.fits',
+                 'note\u2028circle(1,2,3)', 'fk5\x0cicrs\x85galactic']))})
         elif kind == 'blank':
             stmts.append({'k': 'blank'})
         elif kind == 'global':
